@@ -26,6 +26,8 @@ var stateGroupMetas = []string{
 	"", "state=active", "state=inactive", "group=a", "group=b", "group=a&group=b", "group=b&group=a&state=active", "state=inactive&group=a",
 	"weight=3&group=a", "group=", "group=ab", "group=a%20", "state=Inactive", "state=inactive;group=a", "%zz", "group=a&tps=4&state=", "x=1&y=2",
 	"group=a&state=inactive&group=b", "state=active&state=inactive", "state=inactive&state=active",
+	// '+' is the query spelling of a space; %2B is a literal plus
+	"group=a+b", "group=a%20b", "group=a%2Bb", "group=x&group=a+b&tps=1", "state=in+active", "group=a+b&state=inactive",
 }
 
 // specKeep: the filtering rule as the property states it (for well-formed metadata):
@@ -61,7 +63,7 @@ func c14Filter(o *Out, r *rand.Rand) {
 		n = 6000
 	}
 	for i := 0; i < n; i++ {
-		group := []string{"", "a", "b", "ab", "a "}[r.Intn(5)]
+		group := []string{"", "a", "b", "ab", "a ", "a b", "a+b"}[r.Intn(7)]
 		servers := map[string]string{}
 		for j := r.Intn(6); j > 0; j-- {
 			servers[fmt.Sprintf("fake@h%d", r.Intn(8))] = stateGroupMetas[r.Intn(len(stateGroupMetas))]
@@ -233,7 +235,7 @@ func runC14(o *Out, r *rand.Rand) {
 }
 
 func c14Converge(o *Out, r *rand.Rand, mode client.SelectMode, procs int) {
-	group := []string{"", "", "a"}[r.Intn(3)]
+	group := []string{"", "", "a", "a b", "a+b"}[r.Intn(5)]
 	mkList := func() []*client.KVPair {
 		var ps []*client.KVPair
 		seen := map[string]bool{}
